@@ -1,0 +1,36 @@
+//! Verification hooks (feature `verif-hooks`). Inert unless armed; used only by /verif.
+
+use std::sync::atomic::{AtomicU64, Ordering};
+
+use nostr::{Event, EventBuilder, Keys, Timestamp};
+
+static WRAPPER_CREATED_AT: AtomicU64 = AtomicU64::new(0);
+static STARTUP_NOW: AtomicU64 = AtomicU64::new(0);
+
+/// Override the `created_at` of the next outgoing kind-445 wrapper events (0 = use the real clock).
+pub fn set_wrapper_created_at(secs: u64) {
+    WRAPPER_CREATED_AT.store(secs, Ordering::SeqCst);
+}
+
+/// Override the wall clock used by the start-up snapshot TTL prune (0 = use the real clock).
+pub fn set_startup_now(secs: u64) {
+    STARTUP_NOW.store(secs, Ordering::SeqCst);
+}
+
+pub(crate) fn startup_now(real: u64) -> u64 {
+    match STARTUP_NOW.load(Ordering::SeqCst) {
+        0 => real,
+        v => v,
+    }
+}
+
+/// Re-sign the wrapper with the overridden timestamp (same content, tags and ephemeral key).
+pub(crate) fn retime_wrapper(event: Event, keys: &Keys) -> Result<Event, crate::Error> {
+    match WRAPPER_CREATED_AT.load(Ordering::SeqCst) {
+        0 => Ok(event),
+        secs => Ok(EventBuilder::new(event.kind, event.content.clone())
+            .tags(event.tags.clone())
+            .custom_created_at(Timestamp::from(secs))
+            .sign_with_keys(keys)?),
+    }
+}
